@@ -360,22 +360,31 @@ type c07RecParams struct {
 	Tracking bool
 	Welcome  string // same | changed | none : the 001 confirms the nick, changes it, or is not sent
 	Backlog  int    // inbound lines pending when a connection is ended
+	Direct   bool   // no proxy: the client's own net.Dialer (shim) makes every connection
 	ChanCap  int
 }
 
 func (p c07RecParams) name() string {
-	return fmt.Sprintf("reconnect/cause=%s/from=%s/cycles=%d/track=%v/welcome=%s/in=%d/cap=%d", p.Cause, p.From, p.Cycles, p.Tracking, p.Welcome, p.Backlog, p.ChanCap)
+	n := fmt.Sprintf("reconnect/cause=%s/from=%s/cycles=%d/track=%v/welcome=%s/in=%d/cap=%d", p.Cause, p.From, p.Cycles, p.Tracking, p.Welcome, p.Backlog, p.ChanCap)
+	if p.Direct {
+		n += "/direct"
+	}
+	return n
 }
 
 func c07ReconnectScenario(p c07RecParams) *explore.Scenario {
 	sc := &explore.Scenario{
 		Family: "reconnect",
 		Name:   p.name(),
-		Params: map[string]interface{}{"cause": p.Cause, "from": p.From, "cycles": p.Cycles, "tracking": p.Tracking, "welcome": p.Welcome, "inbound_backlog": p.Backlog, "chancap": p.ChanCap},
+		Params: map[string]interface{}{"cause": p.Cause, "from": p.From, "cycles": p.Cycles, "tracking": p.Tracking, "welcome": p.Welcome, "inbound_backlog": p.Backlog, "chancap": p.ChanCap, "direct": p.Direct},
 		Opt:    vx.Options{ChanCap: p.ChanCap, MaxSteps: 60000, Horizon: 24 * time.Hour},
 	}
 	sc.Main = func(env *vx.Env) {
-		c := NewClient("me", nil)
+		c := NewClient("me", func(cfg *client.Config) {
+			if p.Direct {
+				cfg.Proxy = ""
+			}
+		})
 		if p.Tracking {
 			c.EnableStateTracking()
 		}
@@ -470,6 +479,11 @@ func c07ReconnectScenario(p c07RecParams) *explore.Scenario {
 			case "close":
 				c.Close()
 			case "eof":
+				vc.EOF()
+			case "quit":
+				// the application says QUIT, the server closes
+				c.Quit("bye")
+				vx.Quiesce()
 				vc.EOF()
 			case "error-eof":
 				vc.SendLines("ERROR :Closing Link: me[host.example] (Quit: bye)")
@@ -718,6 +732,8 @@ func c07Jobs(tier string) []Job {
 				}
 			}
 		}
+		jobs = append(jobs, ExploreJob("C07", ExploreSpec{Sc: c07ReconnectScenario(c07RecParams{Cause: "quit", From: from, Cycles: 3, Tracking: true, Welcome: "same", Backlog: 1}), Variants: []int{1, 2, 3}, Budgets: b1, Cache: true}, 30))
+		jobs = append(jobs, ExploreJob("C07", ExploreSpec{Sc: c07ReconnectScenario(c07RecParams{Cause: "eof", From: from, Cycles: 3, Welcome: "same", Backlog: 1, Direct: true}), Variants: []int{1, 2, 3}, Budgets: b1, Cache: true}, 30))
 		jobs = append(jobs, ExploreJob("C07", ExploreSpec{Sc: c07ReconnectScenario(c07RecParams{Cause: "error-eof", From: from, Cycles: 3, Tracking: true, Welcome: "same", Backlog: 1}), Variants: []int{1, 2, 3}, Budgets: b1, Cache: true}, 30))
 		bs3 := b1
 		if thorough {
